@@ -43,6 +43,12 @@ pub struct WorldOpts {
     /// activation epoch of the 2023 hard fork (VM version 2, hash type data2); default 0 = active
     /// from genesis like every other feature
     pub ckb2023_epoch: u64,
+    /// genesis transaction 0 has three outputs; output 2 (where production chains keep the NervosDAO
+    /// code cell: `OUTPUT_INDEX_DAO`) holds the always-success code under a type script of its own,
+    /// so that `Consensus::dao_type_hash` names a script cells can use: every consensus-level rule
+    /// about NervosDAO cells (maximum withdraw, S, DAO script size) applies to them, while the script
+    /// itself accepts everything (the real script's own checks are not consensus code of the node)
+    pub dao_cell: bool,
 }
 
 impl Default for WorldOpts {
@@ -60,6 +66,7 @@ impl Default for WorldOpts {
             primary_epoch_reward: None,
             system_cells: false,
             ckb2023_epoch: 0,
+            dao_cell: false,
         }
     }
 }
@@ -117,8 +124,42 @@ pub fn unspendable_lock() -> packed::Script {
 }
 
 pub fn genesis_block_full(compact_target: u32, witness_lock: bool, system_cells: bool) -> BlockView {
+    genesis_block_all(compact_target, witness_lock, system_cells, false)
+}
+
+/// the type script of the genesis cell at `OUTPUT_INDEX_DAO` in a `dao_cell` world
+pub fn dao_code_cell_type() -> packed::Script {
+    always_success_lock().as_builder().args(Bytes::from(b"nervos-dao-stand-in".to_vec()).pack()).build()
+}
+
+/// the type script NervosDAO cells carry in a `dao_cell` world
+pub fn dao_type_script(consensus: &Consensus) -> packed::Script {
+    packed::Script::new_builder().code_hash(consensus.dao_type_hash()).hash_type(ckb_types::core::ScriptHashType::Type).build()
+}
+
+pub fn dao_dep(consensus: &Consensus) -> CellDep {
+    let tx0 = consensus.genesis_block().transactions()[0].hash();
+    CellDep::new_builder().out_point(OutPoint::new(tx0, 2)).build()
+}
+
+pub fn genesis_block_all(compact_target: u32, witness_lock: bool, system_cells: bool, dao_cell: bool) -> BlockView {
     let lock = always_success_lock();
-    let mut txs: Vec<TransactionView> = if system_cells {
+    let mut txs: Vec<TransactionView> = if dao_cell {
+        let (as_cell, as_data, _) = always_success_cell();
+        let dead = unspendable_lock();
+        let filler = Bytes::from(vec![0xF1u8; 16]);
+        let cell = |data: &Bytes, type_: Option<packed::Script>| CellOutput::new_builder().lock(dead.clone()).type_(type_.pack()).build_exact_capacity(Capacity::bytes(data.len()).unwrap()).unwrap();
+        vec![TransactionBuilder::default()
+            .input(CellInput::new(OutPoint::null(), 0))
+            .witness(always_success_lock().into_witness())
+            .output(as_cell.clone())
+            .output_data(as_data.clone())
+            .output(cell(&filler, None))
+            .output_data(filler)
+            .output(cell(as_data, Some(dao_code_cell_type())))
+            .output_data(as_data.clone())
+            .build()]
+    } else if system_cells {
         let (as_cell, as_data, _) = always_success_cell();
         let dead = unspendable_lock();
         let cell = |data: &Bytes| CellOutput::new_builder().lock(dead.clone()).build_exact_capacity(Capacity::bytes(data.len()).unwrap()).unwrap();
@@ -197,7 +238,7 @@ pub fn genesis_block_full(compact_target: u32, witness_lock: bool, system_cells:
 }
 
 pub fn consensus(opts: &WorldOpts) -> Consensus {
-    let genesis = genesis_block_full(opts.genesis_compact_target, opts.witness_lock, opts.system_cells);
+    let genesis = genesis_block_all(opts.genesis_compact_target, opts.witness_lock, opts.system_cells, opts.dao_cell);
     let epoch_ext = build_genesis_epoch_ext(
         Capacity::shannons(opts.primary_epoch_reward.unwrap_or(EPOCH_REWARD)),
         opts.genesis_compact_target,
